@@ -136,8 +136,11 @@ package align
 //@   ensures a.algo != ALIGN_ALGO_ATG ==> forall k :: 0 <= k && k < len2(a) ==> a.seq2.sequence[k] == old(a.seq2.sequence[k])
 //@   modifies a.matrix, a.trace, a.maxa, a.maxscore, a.maxi, a.maxj, a.seq1.sequence[*], a.seq2.sequence[*]
 
+// the cells of the last row of the score matrix are finite numbers (what fillMatrix establishes for finite scores)
+//@ pure func c9f_lastfin(a *pwaligner) bool = forall k :: 0 <= k && k < len2(a) ==> isfin(a.matrix[len1(a)-1][k])
+
 //@ func (*pwaligner).backTrack
-//@   props C09
+//@   props C09 C16
 //@   float xreal
 //@   requires filled(a) && nogap1(a) && nogap2(a) && sepseqs(a)
 //@   ensures len(a.seq1ali) == len(a.seq2ali) && len(a.alistr) == len(a.seq1ali) && len(a.seq1ali) >= 1
@@ -147,12 +150,16 @@ package align
 // anchored mode: the last column of the returned rows holds a residue of the second sequence
 //@   ensures a.algo == ALIGN_ALGO_ATG ==> a.seq2ali[len(a.seq2ali)-1] != '-'
 //@   ensures a.algo != ALIGN_ALGO_ATG ==> a.end1 == old(a.maxi) && a.end2 == old(a.maxj)
+// anchored mode: the score kept is at least every cell of the last row of the matrix (the anchor search covers every column)
+//@   ensures a.algo == ALIGN_ALGO_ATG && old(c9f_lastfin(a)) ==> isfin(a.maxscore) && (forall k :: 0 <= k && k < len2(a) ==> old(fin(a.matrix[len1(a)-1][k])) <= fin(a.maxscore))
 //@   ensures pwok(a) && sepseqs(a) && bufs(a.seq1ali, a.seq2ali, a.alistr) && len1(a) == old(len1(a)) && len2(a) == old(len2(a))
 //@   ensures a.algo != ALIGN_ALGO_ATG ==> forall k :: 0 <= k && k < len1(a) ==> a.seq1.sequence[k] == old(a.seq1.sequence[k])
 //@   ensures a.algo != ALIGN_ALGO_ATG ==> forall k :: 0 <= k && k < len2(a) ==> a.seq2.sequence[k] == old(a.seq2.sequence[k])
 //@   modifies a.end1, a.end2, a.start1, a.start2, a.length, a.nbgaps, a.nbmatches, a.nbmismatches, a.seq1ali, a.seq2ali, a.alistr, a.maxscore, a.maxi, a.maxj, a.seq1.sequence[*], a.seq2.sequence[*]
 //@   loop 1
 //@     invariant filled(a) && nogap1(a) && nogap2(a) && sepseqs(a) && 0 <= j && a.algo == ALIGN_ALGO_ATG
+// the anchor is searched over the WHOLE last row: no cell of it exceeds the running maximum
+//@     invariant c9f_lastfin(a) ==> isfin(a.maxscore) && (forall k :: 0 <= k && k < j && k < len2(a) ==> fin(a.matrix[len1(a)-1][k]) <= fin(a.maxscore))
 //@     decreases len2(a) - j
 
 
